@@ -504,7 +504,7 @@ func genCase(rt *rapid.T) Case {
 	c.Meths = []Meth{}
 	for j := 0; j < nm; j++ {
 		m := Meth{F: rapid.IntRange(0, nf-1).Draw(rt, "mflavor")}
-		m.Msg = rapid.SampledFrom([]string{"m", "m", "m", "n"}).Draw(rt, "msg")
+		m.Msg = rapid.SampledFrom([]string{"m", "m", "m", "m", "n", "id"}).Draw(rt, "msg")
 		m.Kind = rapid.SampledFrom([]string{"p", "b", "a", "w", "b", "a", "w"}).Draw(rt, "kind")
 		c.Meths = append(c.Meths, m)
 	}
@@ -656,15 +656,20 @@ func methodSets(nf, k int, yield func([]Meth) bool) {
 	rec(0, nil)
 }
 
-// enumerate every DAG on nf flavors x every set of k methods x every legal order; split over the shards.
-func enumerate(nf, k int, same string) func(yield func(Case) bool) {
+// diamond is the fixed DAG a; b(a); c(a); d(b c).
+func diamond(_ int, yield func([]Flv) bool) {
+	yield([]Flv{{Comps: []int{}}, {Comps: []int{0}}, {Comps: []int{0}}, {Comps: []int{1, 2}}})
+}
+
+// enumerate every DAG of the family on nf flavors x every set of k methods on :m (same != "": only sets whose
+// methods all have that kind, i.e. dense daemon lists) x every legal order; split over the shards.
+func enumerate(family func(int, func([]Flv) bool), nf, k int, same string) func(yield func(Case) bool) {
 	return func(yield func(Case) bool) {
 		idx := 0
-		dags(nf, func(fl []Flv) bool {
+		family(nf, func(fl []Flv) bool {
 			ok := true
 			methodSets(nf, k, func(ms []Meth) bool {
 				if same != "" {
-					// restricted space: every method of the same kind (dense daemon lists)
 					for _, m := range ms {
 						if m.Kind != same {
 							return true
@@ -689,42 +694,60 @@ func enumerate(nf, k int, same string) func(yield func(Case) bool) {
 	}
 }
 
+type space struct {
+	p        h.Prop[Case]
+	family   func(int, func([]Flv) bool)
+	nf, k    int
+	same     string
+	thorough bool // only in the thorough tier
+}
+
+func sp(name string, family func(int, func([]Flv) bool), nf, k int, same string, thorough bool) space {
+	return space{p: h.Prop[Case]{Name: name, Run: run}, family: family, nf: nf, k: k, same: same, thorough: thorough}
+}
+
 var (
 	history = h.Prop[Case]{Name: "history", Gen: genCase, Run: run}
-	orders5 = h.Prop[Case]{Name: "orders-3flavors-2methods", Run: run}
-	orders6 = h.Prop[Case]{Name: "orders-3flavors-3methods", Run: run}
-	orders4 = h.Prop[Case]{Name: "orders-4flavors-2methods", Run: run}
-	dense4  = h.Prop[Case]{Name: "orders-4flavors-3whoppers", Run: run}
-	dense4b = h.Prop[Case]{Name: "orders-4flavors-3befores", Run: run}
-	dense4a = h.Prop[Case]{Name: "orders-4flavors-3afters", Run: run}
+	spaces  = []space{
+		sp("orders-3flavors-2methods", dags, 3, 2, "", false),
+		sp("orders-3flavors-3whoppers", dags, 3, 3, "w", false),
+		sp("orders-3flavors-3befores", dags, 3, 3, "b", false),
+		sp("orders-3flavors-3afters", dags, 3, 3, "a", false),
+		sp("orders-3flavors-3primaries", dags, 3, 3, "p", false),
+		sp("orders-diamond-2methods", diamond, 4, 2, "", false),
+		sp("orders-3flavors-3methods", dags, 3, 3, "", true),
+		sp("orders-4flavors-2methods", dags, 4, 2, "", true),
+		sp("orders-4flavors-3whoppers", dags, 4, 3, "w", true),
+		sp("orders-4flavors-3befores", dags, 4, 3, "b", true),
+		sp("orders-4flavors-3afters", dags, 4, 3, "a", true),
+		sp("orders-4flavors-3primaries", dags, 4, 3, "p", true),
+		sp("orders-diamond-3methods", diamond, 4, 3, "", true),
+	}
 )
 
 func TestC11(t *testing.T) {
 	h.Rule("a case = a flavor DAG (2-5 flavors, 0-3 components each, written order drawn, so chains, siblings and diamonds occur; variables u v w with " +
 		"distinct defaults or none, bare or listed :gettable/:settable/:initable-instance-variables, :init-keywords) x methods (primary, :before, :after, whopper " +
-		"on messages :m/:n, redefinitions allowed) x one legal order of the defflavor/defmethod/defwhopper forms (components before users, a flavor before its own " +
-		"methods; half of the generated cases define all flavors first) x observe after every form or only at the end x delivery by send or by Instance.BoundReceive. " +
-		"Oracle = independent model (depth-first component precedence; whoppers, :before, first primary, :after reversed; first declaring flavor decides a default; " +
-		"accessors, initable variables and init keywords are the union over the precedence), compared with the vt:mark trace, the value, class-precedence and the " +
-		"instance variables read through the Go API. Non-trivial: some method is defined when at least two already defined flavors inherit from its flavor. " +
-		"Distinct by (DAG, options, methods, order, flags). Enumerations: every DAG x every set of k methods on :m x every legal order, observed after every form.")
+		"on messages :m/:n and on :id, which vanilla-flavor also handles; redefinitions allowed) x one legal order of the defflavor/defmethod/defwhopper forms " +
+		"(components before users, a flavor before its own methods; half of the generated cases define all flavors first) x observe after every form or only at " +
+		"the end x delivery by send or by Instance.BoundReceive. " +
+		"Oracle = independent model (depth-first component precedence, vanilla-flavor last; whoppers, :before, first primary, :after reversed; first declaring flavor " +
+		"decides a default; accessors, initable variables and init keywords are the union over the precedence), compared with the vt:mark trace, the value, " +
+		"class-precedence and the instance variables read through the Go API. Non-trivial: some method is defined when at least two already defined flavors " +
+		"inherit from its flavor. Distinct by (DAG, options, methods, order, flags). Enumerations (orders-*): every DAG of the family x every set of k methods " +
+		"on :m x every legal order, observed after every form.")
 	h.Assume("vt:mark (harness primitive) records the daemon that runs; Instance.SlotValue reads an instance variable")
 	h.Assume("undefflavor / Package.Remove are used only to discard the flavors of a finished case (names are never reused)")
 
+	h.RunProp(t, history, h.N(6000, 150000))
 	if os.Getenv("C11_NOENUM") != "" { // development aid
-		h.RunProp(t, history, h.N(6000, 60000))
 		return
 	}
-	h.RunProp(t, history, h.N(6000, 60000))
-	for _, p := range []h.Prop[Case]{orders5, orders6, orders4, dense4, dense4b, dense4a} {
-		h.RunProp(t, p, 0) // witnesses only
-	}
-	h.Enumerate(t, orders5, enumerate(3, 2, ""))
-	h.Enumerate(t, dense4, enumerate(4, 3, "w"))
-	if h.Thorough() {
-		h.Enumerate(t, orders6, enumerate(3, 3, ""))
-		h.Enumerate(t, orders4, enumerate(4, 2, ""))
-		h.Enumerate(t, dense4b, enumerate(4, 3, "b"))
-		h.Enumerate(t, dense4a, enumerate(4, 3, "a"))
+	for _, s := range spaces {
+		h.RunProp(t, s.p, 0) // witnesses, replay
+		if s.thorough && !h.Thorough() {
+			continue
+		}
+		h.Enumerate(t, s.p, enumerate(s.family, s.nf, s.k, s.same))
 	}
 }
